@@ -664,6 +664,12 @@ impl Vm {
             .environments
             .truncate(environment_sp as usize);
 
+        // Everything above the frame's registers was pushed by the code that is being
+        // abandoned (pending call arguments, frames of callees that were unwound).
+        let frame = self.frame();
+        let stack_top = frame.rp as usize + frame.code_block().register_count as usize;
+        self.stack.stack.truncate(stack_top);
+
         true
     }
 
